@@ -26,12 +26,13 @@ CONSTANTS MaxRoutes, DropOnBind
 \* (a value returned BY VALUE as `const T` is a fresh object owned by the script - Handle_Return<const Ret> boxes it as a plain value - and no const object); csp shared_ptr<const T>
 ConstSources == {"lit_int", "lit_str", "lit_neg", "lit_compl", "lit_plus", "lit_fold",     \* also the constants the optimizer folds: -5, ~5, +5, (2 + 3)
                   "cv_int", "cv_str", "cv_vec", "cv_map", "gc_int", "cref_int", "cptr_int", "cref_str", "cref_vec", "cref_map",
-                 "cref_tk", "cptr_tk", "csp_tk", "cw_int"}
+                 "cref_tk", "cptr_tk", "csp_tk", "cw_int",
+                 "cx_int", "cx_str", "cxp_int", "cxsp_tk"}    \* const VIEWS of non-const C++ objects: const_var(std::ref(x)), const_var(&x), const_var(shared_ptr<T>)
 \* mutable controls: the same chains and mutators must SUCCEED on them, otherwise an "error" on a const source proves nothing
 Controls == {"nc_int", "nc_str", "nc_vec", "nc_map", "nc_tk"}
 Sources == ConstSources \cup Controls
-TypeOf(s) == CASE s \in {"lit_neg", "lit_compl", "lit_plus", "lit_fold", "lit_int", "cv_int", "gc_int", "cref_int", "cptr_int", "cw_int", "nc_int"} -> "int"
-               [] s \in {"lit_str", "cv_str", "cref_str", "nc_str"} -> "str"
+TypeOf(s) == CASE s \in {"lit_neg", "lit_compl", "lit_plus", "lit_fold", "lit_int", "cv_int", "gc_int", "cref_int", "cptr_int", "cw_int", "nc_int", "cx_int", "cxp_int"} -> "int"
+               [] s \in {"lit_str", "cv_str", "cref_str", "nc_str", "cx_str"} -> "str"
                [] s \in {"cv_vec", "cref_vec", "nc_vec"} -> "vec"
                [] s \in {"cv_map", "cref_map", "nc_map"} -> "map"
                [] OTHER -> "tk"
